@@ -186,6 +186,9 @@ func runSpec(p *eng.Solo, sp spec) {
 			k := j
 			k.Shard, k.NShards = i, j.Shards
 			k.Name = fmt.Sprintf("%s [shard %d/%d]", j.Name, i+1, j.Shards)
+			if k.P.Dir != "" {
+				k.P.Dir = fmt.Sprintf("%s-shard%d", k.P.Dir, i) // every process writes its own image files
+			}
 			jobs = append(jobs, k)
 		}
 	}
